@@ -130,7 +130,8 @@ class ParserTotal(BoundedCheck):
                     yield s
         if self.shard == 0:
             for s in ('Y = {}', 'Y = {a} + }{', 'Y = {0}', 'Y = 1/0', 'Y = "a" + 1', 'Y = print(1)', '```\nx=1', 'é = 1', 'Y = H[--1]', 'Y = X\nY = X', '`self.Q = 1`\n`self.Q = 1`',
-                      '```\nx\n``` ', '```\nself.x\n```\t', '``` \nself.x = 1\n```', '```\nself.x = 1\n```  \nY = 1', 'Y = log(0) * X', 'Y = sqrt(X) + foo(2)', 'Y = np.log(0) + X', 'Y = X + X(1)', 'H = H(1)', 'Y = X(1) + X', 'b=A(1)+A', 'Y = f(X)\nZ = f', 'Y = exp + exp(X)', '```\nscale_ = 0.5\n```', '`q_ = 3`', 'Y = X\n`import_marker_ = [1]`', '```\nglobal g_\ng_ = 1\n```'):
+                      '```\nx\n``` ', '```\nself.x\n```\t', '``` \nself.x = 1\n```', '```\nself.x = 1\n```  \nY = 1', 'Y = log(0) * X', 'Y = sqrt(X) + foo(2)', 'Y = np.log(0) + X', 'Y = X + X(1)', 'H = H(1)', 'Y = X(1) + X', 'b=A(1)+A', 'Y = f(X)\nZ = f', 'Y = exp + exp(X)', '```\nscale_ = 0.5\n```', '`q_ = 3`', 'Y = X\n`import_marker_ = [1]`', '```\nglobal g_\ng_ = 1\n```',
+                      'Y = X is 1', 'Y = 1(2)', 'Y = X is "a"', 'Y = (1)(2) + X'):
                 yield s
 
     def check(self, s: str, res: BoundedResult):
@@ -193,11 +194,33 @@ class ParserTotal(BoundedCheck):
         if printed or new_mods or os.getcwd() != cwd:
             out.append(Violation('parsing never executes the model\'s statements and has no effect outside the returned objects',
                                  'c13.side-effect:syntax-check-executes-statement', s, 'no effect', f'printed={printed[:1]} imported={sorted(new_mods)[:2]}', 'no_exec'))
+        import zlib as _zlib
+        sample = _zlib.crc32(s.encode('utf-8', 'replace'))
         if raised is not None:
+            # a refusal is an outcome like any other: the same text is refused again when parsed again (nothing the first parse left
+            # behind - a cache, CPython's once-per-location warning registry - may turn it into an acceptance)
+            if len(s) <= 3 or sample % 5 == 0 or ' is ' in s or ')(' in s or '(2)' in s:
+                try:
+                    with _w.catch_warnings():
+                        _w.simplefilter('ignore')          # ... nor may the caller's warning filters: the verdict on a text is the parser's own
+                        fsic.parse_model(s)
+                    second = None
+                except (ParserError, SymbolError, IndentationError) as ex2:
+                    second = ex2
+                except BaseException as ex2:  # noqa: BLE001
+                    if type(ex2).__name__ == '_CaseTimeout':
+                        raise
+                    second = ex2
+                for k_, v_ in namespaces.items():
+                    for nm_ in set(v_) - names_before[k_] - {'__warningregistry__'}:
+                        del v_[nm_]
+                if type(second) is not type(raised):
+                    out.append(Violation('parsing has no effect outside the returned objects (the same text meets the same refusal when parsed again, whatever warning filters the caller has set)', 'c13.side-effect:refusal-not-repeated', s,
+                                         type(raised).__name__, type(second).__name__ if second is not None else 'returned', 'no_effect'))
             return out
         res.cover('returned')
         # what parse_model returns belongs to the caller: altering it does not reach a later parse of the same text
-        if len(s) <= 3 or '\n' in s or len(out) == 0 and hash(s) % 40 == 0:
+        if len(s) <= 3 or '\n' in s or len(out) == 0 and sample % 40 == 0:
             kept = list(symbols)
             symbols.append('<mutated by the caller>')
             try:
